@@ -9,6 +9,14 @@ claimed = {
    text='Seeded search over goroutine interleavings: every run executes one concurrent template natively and in the interpreter from one choice list under a parking scheduler that decides who runs at every yield (statement-level in the interpreter); oracles are the native twin (determinate observations and lockstep histories), a channel reference model replaying the completion-ordered history (admissible-outcome check for select and racing senders) and ThreadSanitizer with the scheduler handshakes hidden from it. Exploration, not proof: a clean batch is evidence over the sampled schedules only.',
    note='Trusted: Go toolchain (native twin), testing/synctest quiescence detection, ThreadSanitizer, the channel model (validated on every run against the history compiled Go produced). Interleavings finer than one interpreted statement are only race-detected. Templates are fixed programs with seeded behaviour; Go picks among ready select cases itself (recorded, replay re-rolls).',
    technique='deterministic simulation: seeded parking scheduler in a synctest bubble + native twin + channel reference model + race detector'),
+ 'C33': dict(level='exploration', design='3.2',
+   text='Seeded search over interleavings of the goroutine-registry protocol: short-lived goroutines enter interpreted code through go statements (named function, literal) and through compiled code calling interpreted closures, with yield points at every registry step (lookup, create, store, delete) and every statement; the identity source is either the real one (checked for constancy/uniqueness against runtime goroutine numbers) or a simulated pool of 3 identities with immediate reuse after exit. An ownership monitor at every frame allocation/release asserts that the runtime record and frames in use belong to the current live task only; results are compared with the native twin; ThreadSanitizer runs with the scheduler handshakes hidden.',
+   note='Trusted: testing/synctest quiescence, runtime goroutine numbers (runtime.Stack) as ground truth for identity, ThreadSanitizer. The assembly GoID is observed, not explored. At most 3 live goroutines and 12 per run.',
+   technique='deterministic simulation: seeded scheduler with protocol-step yields + identity-reuse fault injection + ownership monitor + race detector'),
+ 'C11': dict(level='exploration', design='3.3',
+   text='Partial: decides the concurrent-invocation clauses (callbacks invoked from other goroutines; interpreted types used through compiled interfaces by compiled code while several foreign goroutines do so at once). Seeded schedules over 1..3 foreign goroutines routing interpreted functions/types through sort.Slice, sort.Sort, strings.Map, fmt via Stringer/error, io.ReadAll, sync.Once.Do, time.AfterFunc (fake clock); oracles: native twin, ownership monitor, race detector.',
+   note='Only a fixed corpus of compiled entry points is exercised; single-threaded interop over the space of programs and interfaces is a pure function of the program and is NOT decided by this check. Trusted: Go toolchain (native twin), synctest, ThreadSanitizer.',
+   technique='deterministic simulation: seeded scheduler over foreign goroutines entering interpreted code + native twin + race detector'),
 }
 
 na_reason = {}
